@@ -29,7 +29,7 @@ MethodAst(ty, oc, name, args, range, orange, b) ==
 \* ---- malformations of the statement (each applicable to some kinds)
 Malformations ==
   {"none", "noarrow", "unspaced", "nocolon", "indent0", "indent2", "indent3", "indent5", "indent8", "indenttab",
-   "startonly", "noret"}
+   "startonly", "noret", "zeropad"}
 
 Applicable(ast, mal) ==
   CASE mal = "none" -> TRUE
@@ -38,6 +38,8 @@ Applicable(ast, mal) ==
     [] mal \in {"indent0", "indent2", "indent3", "indent5", "indent8", "indenttab"} -> ast.k \in {"field", "method"}
     [] mal = "startonly" -> ast.k = "method" /\ ast.range # <<>>
     [] mal = "noret" -> ast.k \in {"field", "method"}
+    \* (not a malformation: numerals written with leading zeros, more digits than any usize has)
+    [] mal = "zeropad" -> ast.k = "method" /\ (ast.range # <<>> \/ ast.orange # <<>>)
     [] OTHER -> FALSE
 
 ArrowOf(mal, obf) ==
@@ -58,6 +60,9 @@ IndentOf(mal) ==
 \* White_Space character): the same record as the tidy spelling
 PadHeaderAst(key, value, pad) == [k |-> "padheader", key |-> key, value |-> value, pad |-> pad]
 
+\* a numeral: the decimal digits, in the variant "zeropad" behind 21 zeros (longer than any usize)
+Num(d, mal) == (IF mal = "zeropad" THEN [i \in 1..21 |-> 48] ELSE <<>>) \o DecBytes(d)
+
 PrintM(ast, mal) ==
   CASE ast.k = "padheader" ->
          B("#") \o ast.pad \o ast.key \o ast.pad
@@ -75,13 +80,13 @@ PrintM(ast, mal) ==
          IndentOf(mal)
            \o (IF ast.range = <<>> THEN <<>>
                ELSE IF mal = "startonly" THEN DecBytes(ast.range[1]) \o B(":")
-               ELSE DecBytes(ast.range[1]) \o B(":") \o DecBytes(ast.range[2]) \o B(":"))
+               ELSE Num(ast.range[1], mal) \o B(":") \o Num(ast.range[2], mal) \o B(":"))
            \o (IF mal = "noret" THEN <<>> ELSE ast.ty \o B(" "))
            \o (IF ast.oclass = None THEN <<>> ELSE ast.oclass[1] \o B("."))
            \o ast.original \o B("(") \o ast.arguments \o B(")")
            \o (IF ast.orange = <<>> THEN <<>>
-               ELSE IF Len(ast.orange) = 1 THEN B(":") \o DecBytes(ast.orange[1])
-               ELSE B(":") \o DecBytes(ast.orange[1]) \o B(":") \o DecBytes(ast.orange[2]))
+               ELSE IF Len(ast.orange) = 1 THEN B(":") \o Num(ast.orange[1], mal)
+               ELSE B(":") \o Num(ast.orange[1], mal) \o B(":") \o Num(ast.orange[2], mal))
            \o ArrowOf(mal, ast.obfuscated)
 
 PrintAst(ast) == PrintM(ast, "none")
@@ -105,7 +110,7 @@ Denotes(ast) ==
 \* what parsing `PrintM(ast, mal) \o term` must give: the record, or an error
 \* carrying the offending line (through at most one terminator byte)
 Expected(ast, mal, term) ==
-  IF mal = "none" THEN Denotes(ast)
+  IF mal \in {"none", "zeropad"} THEN Denotes(ast)
   ELSE [k |-> "err", line |-> PrintM(ast, mal) \o (IF term = <<>> THEN <<>> ELSE <<term[1]>>)]
 
 Terminators == {<<>>, <<10>>, <<13, 10>>, <<10, 10>>, <<13>>}
